@@ -191,6 +191,10 @@ def match_group(I, m, name):
     return v
 
 
+def match_getitem(I, m, k):
+    return match_group(I, m, k)
+
+
 def match_method(I, m, name, args, kwargs):
     if name == 'start':
         if args and args[0] != 0:
